@@ -123,3 +123,90 @@ Proof.
   all: try (right; right; right; right; right; left; split; reflexivity).
   all: try (right; right; right; right; right; right; eexists; split; [reflexivity|split; [eassumption|first [left; split; [reflexivity|now apply Nat.ltb_lt]|right; split; [reflexivity|now apply Nat.ltb_ge]]]]).
 Qed.
+
+Lemma fphase_relevant c : fphase c = true -> relevant c = true.
+Proof. destruct c; cbn; auto. Qed.
+Lemma fphase0_relevant c : fphase0 c = true -> relevant c = true.
+Proof. destruct c; cbn; auto. Qed.
+Lemma joined_fphase c : joined c = true -> fphase c = true.
+Proof. destruct c; cbn; auto. Qed.
+Lemma relevant_false_fphase c : relevant c = false -> fphase c = false /\ fphase0 c = false /\ joined c = false /\ (forall k, c <> MJoin k) /\ (forall i, c <> FJoin i) /\ c <> Done /\ c <> FLock.
+Proof. destruct c; cbn; intros; try discriminate; repeat split; auto; congruence. Qed.
+
+Lemma main_step cfg tid w s s' :
+  RoleOK s -> ShapeOK cfg s -> AssertOK s -> MainOK cfg s -> step cfg tid w s = Some s' -> MainOK cfg s'.
+Proof.
+  intros HR (HL & HK & Hlim & HWk & HMo) HA (m & Hm & Hw & HA1 & HB & HC & HD & HE & HG) H.
+  assert (Hth : exists th, nth_error (st s) tid = Some th) by (unfold step in H; destruct (nth_error (st s) tid); [eauto|discriminate]).
+  destruct Hth as (th & Hth).
+  destruct (step_shutdown _ _ _ _ _ _ H Hth) as (Hsd1 & Hsd2 & Hsd3).
+  destruct (step_cap _ _ _ _ _ _ H Hth) as [Hc1 Hc2]. destruct (step_naslp _ _ _ _ _ _ H Hth) as [Hn1 Hn2].
+  assert (Hdone : forall j, done_at (st s) j = true -> done_at (st s') j = true) by (intros; eapply done_stable; eauto).
+  pose proof (Forall_nth_error _ _ _ _ HR Hth) as Hrole. cbn beta in Hrole.
+  destruct (Nat.eq_dec tid 0) as [Ht0|Ht0].
+  - assert (Heq : th = m) by (rewrite Ht0 in Hth; congruence). subst th.
+    destruct (main_transition cfg tid w s s' m ltac:(lia) H Hth Hw Hrole) as (m' & Hm' & Hw' & Htr).
+    rewrite Ht0 in Hm'. exists m'. split; [exact Hm'|]. split; [exact Hw'|].
+    destruct Htr as [(Hr & Hr')|[(c & Hc & Hdc & Hc')|[(H1 & H2)|[(H1 & H2)|[(H1 & H2)|[(H1 & H2)|(i & Hi & Hdi & Hi')]]]]]].
+    + (* an ordinary pool operation of the main client *)
+      destruct (relevant_false_fphase _ Hr) as (F1 & F2 & F3 & F4 & F5 & F6 & F7).
+      rewrite (Hsd2 F7), HA1, F1.
+      destruct Hr' as [Hr'|[(Hp & HK1)|(Hp & HK1)]].
+      * destruct (relevant_false_fphase _ Hr') as (G1 & G2 & G3 & G4 & G5 & G6 & G7).
+        rewrite G1, G2, G3. repeat split; auto; try discriminate; intros; try congruence; try (exfalso; eapply G4; eassumption); try (exfalso; eapply G5; eassumption).
+      * rewrite Hp. cbn. repeat split; auto; try discriminate; intros; try discriminate.
+        -- inversion H0; lia.
+        -- inversion H0; subst; lia.
+      * rewrite Hp. cbn. repeat split; auto; try discriminate; intros; try discriminate. lia.
+    + (* joined client c *)
+      assert (Hne : t_pc m <> FLock) by congruence. rewrite (Hsd2 Hne), HA1, Hc. destruct (HB _ Hc) as [Hc1' Hcj].
+      destruct Hc' as [(Hp & HSc)|(Hp & HSc)]; rewrite Hp; cbn; repeat split; auto; try discriminate; intros; try discriminate.
+      * inversion H0; lia.
+      * inversion H0; subst. destruct (Nat.eq_dec j c) as [->|]; [apply Hdone, is_done_done_at; auto; lia|apply Hdone, Hcj; lia].
+      * destruct (Nat.eq_dec j c) as [->|]; [apply Hdone, is_done_done_at; auto; lia|apply Hdone, Hcj; lia].
+    + rewrite (Hsd3 H1), H2. rewrite H1 in *. cbn in *. repeat split; auto; try discriminate; intros; try discriminate; try (apply Hdone, HC; auto).
+    + assert (Hne : t_pc m <> FLock) by congruence. rewrite (Hsd2 Hne), HA1, H2. rewrite H1 in *. cbn in *.
+      repeat split; auto; try discriminate; intros; try discriminate; try (apply Hdone, HC; auto).
+    + assert (Hne : t_pc m <> FLock) by congruence. rewrite (Hsd2 Hne), HA1, H2. rewrite H1 in *. cbn in *.
+      repeat split; auto; try discriminate; intros; try discriminate; try (apply Hdone, HC; auto).
+    + assert (Hne : t_pc m <> FLock) by congruence. rewrite (Hsd2 Hne), HA1, H2. rewrite H1 in *. cbn in *.
+      repeat split; auto; try discriminate; intros; try discriminate; try (apply Hdone, HC; auto; fail); try lia; try (inversion H0; lia).
+    + assert (Hne : t_pc m <> FLock) by congruence. rewrite (Hsd2 Hne), HA1. destruct (HD _ Hi) as [Hic Hij].
+      assert (HGs : sumf naslp (st s') = 0). { rewrite Hi in Hn1, HG. cbn in HG. specialize (HG eq_refl). lia. }
+      assert (Hcap : cap (sp s') = cap (sp s)) by (apply Hc2; intros; congruence).
+      rewrite Hi in *. cbn in HC.
+      destruct Hi' as [(Hp & HSi)|(Hp & HSi)]; rewrite Hp; cbn; repeat split; auto; try discriminate; intros; try discriminate;
+        try (apply Hdone, HC; auto; fail);
+        try (inversion H0; subst; lia);
+        try (inversion H0; subst; destruct (Nat.eq_dec j i) as [->|]; [apply Hdone, is_done_done_at; auto; lia|apply Hdone, Hij; lia]);
+        try (rewrite Hcap in *; destruct (Nat.eq_dec j i) as [->|]; [apply Hdone, is_done_done_at; auto; lia|apply Hdone, Hij; lia]).
+  - (* another thread steps *)
+    destruct (step_other _ _ _ _ _ _ _ H Hm ltac:(lia)) as (m' & Hm' & Hwk).
+    exists m'. split; [exact Hm'|]. split; [rewrite (woken_worker _ _ Hwk); exact Hw|].
+    assert (Hnf : t_pc th <> FLock). { intros Hf. apply Ht0. apply (HMo _ _ Hth). rewrite Hf. reflexivity. }
+    rewrite (Hsd2 Hnf), HA1.
+    destruct (woken_relevant _ _ Hwk) as [Hr1 Hr2].
+    destruct (relevant (t_pc m)) eqn:Er.
+    + rewrite (Hr1 eq_refl). repeat split; intros.
+      * apply (HB _ H0).
+      * apply Hdone. apply (HB _ H0). auto.
+      * apply Hdone, HC; auto.
+      * destruct (HD _ H0). lia.
+      * apply Hdone. destruct (HD _ H0) as [_ Hj]. auto.
+      * (* no resize once the main client is done *)
+        assert (Hcap : cap (sp s') = cap (sp s)).
+        { apply Hc2. intros n Hn. unfold role_ok in Hrole. rewrite Hn in Hrole.
+          destruct (t_worker th) eqn:Ew; [cbn in Hrole; discriminate|].
+          pose proof (HWk _ _ Hth) as Hpos. rewrite Ew in Hpos. symmetry in Hpos. apply negb_false_iff, Nat.ltb_lt in Hpos.
+          assert (Hd : done_at (st s) tid = true) by (apply HC; [rewrite H0; reflexivity|lia]).
+          apply done_at_spec in Hd. destruct Hd as (x & Hx & Hxd). rewrite Hth in Hx. inversion Hx; subst. congruence. }
+        rewrite Hcap in H1. apply Hdone, HE; auto.
+      * assert (Hnw : t_pc th <> WWait).
+        { intros Hww. pose proof (HA _ _ Hth) as Has. unfold assert_ok in Has. rewrite Hww in Has. apply andb_prop in Has. destruct Has as [_ Has].
+          rewrite HA1, (joined_fphase _ H0) in Has. discriminate. }
+        specialize (HG H0). destruct (t_pc th); try congruence; lia.
+    + specialize (Hr2 eq_refl).
+      destruct (relevant_false_fphase _ Er) as (F1 & F2 & F3 & F4 & F5 & F6 & F7).
+      destruct (relevant_false_fphase _ Hr2) as (G1 & G2 & G3 & G4 & G5 & G6 & G7).
+      rewrite F1, G1, G2, G3. repeat split; auto; try discriminate; intros; try congruence; try (exfalso; eapply G4; eassumption); try (exfalso; eapply G5; eassumption).
+Qed.
